@@ -120,7 +120,7 @@ def run(model: Model, rep: Report) -> None:
         rets = [unparse(n.value) for n in walk_no_nested(f.node) if isinstance(n, ast.Return)]
         none_ok = any(isinstance(n, ast.If) and unparse(n.test).replace(" ", "") == f"{f.params[1]}isNone" and any(isinstance(s, ast.Return) and unparse(s.value) == fallback for s in n.body) for n in walk_no_nested(f.node))
         exc_ok = any(isinstance(h, ast.ExceptHandler) and h.type is not None and "PDFValueError" in unparse(h.type) and any(isinstance(s, ast.Return) and unparse(s.value) == fallback for s in h.body) for n in walk_no_nested(f.node) if isinstance(n, ast.Try) for h in n.handlers)
-        parse_ok = any(r.replace(" ", "") == f"parse_rect((resolve1(val)forvalinresolve1({f.params[1]})))" for r in rets)
+        parse_ok = any(r.replace(" ", "") in (f"parse_rect((resolve1(val)forvalinresolve1({f.params[1]})))", f"parse_rect((resolve1(val)forvalinlist_value({f.params[1]})))") for r in rets)
         r5.check(none_ok and exc_ok and parse_ok, site(f), f.qualname, f"missing or invalid box falls back to {desc}; each element is resolved on its own", why=f"none->{none_ok} invalid->{exc_ok} parse->{parse_ok}")
     us = [unparse(n.value).replace(" ", "") for n in walk_no_nested(mb.node) if isinstance(n, ast.Assign) and unparse(n.targets[0]) == "us_letter"]
     r5.check(us == ["(0.0,0.0,612.0,792.0)"], site(mb), mb.qualname, "US Letter is (0, 0, 612, 792)", why=f"{us}")
